@@ -14,6 +14,7 @@ var targetFile = map[string]string{
 	"isCallResOK":        "GenFrame",
 	"ChecksumSize":       "GenFrame",
 	"poolIndex":          "GenFrame",
+	"relayRoute":         "GenFrame",
 }
 
 // varFields: constant fields of package-level composite-literal variables.
@@ -73,4 +74,13 @@ var targets = []Target{
 	// checksum.go
 	{Func: "ChecksumType.ChecksumSize", Out: "ChecksumSize", Params: "(t : Z)", Ret: "Z",
 		Hints: map[string]string{"crc32.Size": "4"}},
+	// connection.go: which frames of a relay connection go to Relayer.Relay
+	// result: 0 = ignored, 1 = Relayer.Relay(frame), 2 = handleFrameNoRelay(frame)
+	{Func: "Connection.handleFrameRelay", Out: "relayRoute", Params: "(mt : Z) (propagateCancel : bool)", Ret: "Z",
+		Hints: map[string]string{"frame.Header.messageType": "mt", "shouldRelease": "1", "c.handleFrameNoRelay(frame)": "2"},
+		SHints: map[string]string{
+			"if frame.Header.messageType == messageTypeCancel && !c.opts.PropagateCancel {...": "if (mt =? c_messageTypeCancel) && negb propagateCancel then 0 else",
+			"shouldRelease, err := c.relay.Relay(frame)":                                       "",
+			"if err != nil {...": "",
+		}},
 }
